@@ -79,6 +79,14 @@ def print_blocks(nh, nb):
     B.append(('b_dec_uint3', 'bit.print_dec_uint 3, b8', 'b8', 3, lambda v: bits_of(str(v & 7).encode())))
     B.append(('const_char', "stl.output_char 'Q'", None, 0, lambda v: bits_of(b'Q')))
     B.append(('const_str', 'stl.output "Hi!\\n"', None, 0, lambda v: bits_of(b'Hi!\n')))
+    # constants whose LAST byte has its top bit set (the bit length of the constant is a multiple of 8), a high byte that is not last,
+    # multi-byte utf-8, single chars >= 0x80
+    B.append(('const_str_high_last', 'stl.output "A\\xff"', None, 0, lambda v: bits_of(b'A\xff')))
+    B.append(('const_str_0x80', 'stl.output "\\x80"', None, 0, lambda v: bits_of(b'\x80')))
+    B.append(('const_str_high_first', 'stl.output "\\xff\\x7f"', None, 0, lambda v: bits_of(b'\xff\x7f')))
+    B.append(('const_str_utf8', 'stl.output "caf\\xc3\\xa9"', None, 0, lambda v: bits_of(b'caf\xc3\xa9')))
+    B.append(('const_char_high', "stl.output_char '\\xe9'", None, 0, lambda v: bits_of(b'\xe9')))
+    B.append(('const_str_8', 'stl.output "12345678"', None, 0, lambda v: bits_of(b'12345678')))
     B.append(('const_bit1', 'stl.output_bit 7', None, 0, lambda v: [1]))
     B.append(('const_bit0', 'stl.output_bit 0', None, 0, lambda v: [0]))
     return B
